@@ -605,6 +605,29 @@ def check_volume(case, o):
             out.append(("result/volume", "total volume changed: signed %s -> %s, absolute %s -> %s (x6)" % (v0, v1, a0, a1)))
         if any(signed_vol6(V1, c) == 0 for c in C1):
             out.append(("result/volume", "a flat cell was created"))
+    # listed faces on the boundary keep the side they show to their (single) cell
+    def boundary_sides(V, C, F):
+        owner = {}
+        for ci, c in enumerate(C):
+            if len(c) == 4:
+                for k in range(4):
+                    owner.setdefault(key(*(c[:k] + c[k + 1:])), []).append(ci)
+        sides = set()
+        for f in F:
+            own = owner.get(key(*f), [])
+            if len(f) == 3 and len(own) == 1:
+                c = C[own[0]]
+                opp = [v for v in c if v not in f]
+                if len(opp) == 1:
+                    s1 = signed_vol6(V, [f[0], f[1], f[2], opp[0]])
+                    s2 = signed_vol6(V, c)
+                    if s1 != 0 and s2 != 0:
+                        sides.add((s1 > 0) == (s2 > 0))
+        return sides
+    if not p1 and not any(len(c) != 4 for c in C1):
+        b0, b1 = boundary_sides(V0, C0, inp["F"]), boundary_sides(V1, C1, res["F"])
+        if len(b0) == 1 and b1 != b0:
+            out.append(("result/orientation", "a boundary face of the result is oriented against the convention of the input"))
     if len(ops) == 1:
         if ops[0][0] == "cellfan":
             c = C0[ops[0][1]]
